@@ -35,7 +35,7 @@ func (rt *runtime) cmplEvaluateNodeStatement(node nodeStatement) Value {
 		value := rt.cmplEvaluateNodeStatementList(node.list)
 		if value.kind == valueResult {
 			if value.evaluateBreak(labels) == resultBreak {
-				return emptyValue
+				return value.carried(emptyValue)
 			}
 		}
 		return value
@@ -91,7 +91,7 @@ func (rt *runtime) cmplEvaluateNodeStatement(node nodeStatement) Value {
 			// A break targeting this label completes the labelled statement
 			// normally, whatever kind of statement the label is attached to.
 			if value.evaluateBreak([]string{node.label}) == resultBreak {
-				return emptyValue
+				return value.carried(emptyValue)
 			}
 		}
 		return value
@@ -137,7 +137,7 @@ func (rt *runtime) cmplEvaluateNodeStatementList(list []nodeStatement) Value {
 		value := rt.cmplEvaluateNodeStatement(node)
 		switch value.kind {
 		case valueResult:
-			return value
+			return value.carrying(result)
 		case valueEmpty:
 		default:
 			// We have getValue here to (for example) trigger a
@@ -166,10 +166,12 @@ resultBreak:
 			case valueResult:
 				switch value.evaluateBreakContinue(labels) {
 				case resultReturn:
-					return value
+					return value.carrying(result)
 				case resultBreak:
+					result = value.carried(result)
 					break resultBreak
 				case resultContinue:
+					result = value.carried(result)
 					goto resultContinue
 				}
 			case valueEmpty:
@@ -249,16 +251,21 @@ func (rt *runtime) cmplEvaluateNodeForInStatement(node *nodeForInStatement) Valu
 				case valueResult:
 					switch value.evaluateBreakContinue(labels) {
 					case resultReturn:
-						result = value
+						if !enumerateValue.isEmpty() {
+							result = enumerateValue
+						}
+						result = value.carrying(result)
 						obj = nil
 						return false
 					case resultBreak:
 						if !enumerateValue.isEmpty() {
 							result = enumerateValue
 						}
+						result = value.carried(result)
 						obj = nil
 						return false
 					case resultContinue:
+						enumerateValue = value.carried(enumerateValue)
 						return true
 					}
 				case valueEmpty:
@@ -323,10 +330,12 @@ resultBreak:
 			case valueResult:
 				switch value.evaluateBreakContinue(labels) {
 				case resultReturn:
-					return value
+					return value.carrying(result)
 				case resultBreak:
+					result = value.carried(result)
 					break resultBreak
 				case resultContinue:
+					result = value.carried(result)
 					goto resultContinue
 				}
 			case valueEmpty:
@@ -382,9 +391,9 @@ func (rt *runtime) cmplEvaluateNodeSwitchStatement(node *nodeSwitchStatement) Va
 				case valueResult:
 					switch value.evaluateBreak(labels) {
 					case resultReturn:
-						return value
+						return value.carrying(result)
 					case resultBreak:
-						return emptyValue
+						return value.carried(result)
 					}
 				case valueEmpty:
 				default:
@@ -457,10 +466,12 @@ resultBreakContinue:
 			case valueResult:
 				switch value.evaluateBreakContinue(labels) {
 				case resultReturn:
-					return value
+					return value.carrying(result)
 				case resultBreak:
+					result = value.carried(result)
 					break resultBreakContinue
 				case resultContinue:
+					result = value.carried(result)
 					continue resultBreakContinue
 				}
 			case valueEmpty:
